@@ -122,6 +122,13 @@ def replay(chk, obj):
     case = obj.get('replay', {}).get('case') or (obj.get('broken') or [{}])[-1].get('case')
     if not case:
         print('no case in replay file'); return 1
+    if ' @' in case:                       # a case of C12 run with another font
+        fn = case.split(' @')[1].split()[0]
+        wf = wrapper[:-3] + '_replay.sh'
+        with open(wf, 'w') as fh:
+            fh.write(open(wrapper).read().rstrip('\n') + ' ' + fn + '\n')
+        os.chmod(wf, 0o755)
+        wrapper = wf
     ml, il, err = vlib.run_pair(mexe, wrapper, [case], shards=1)
     print(case); print(' model:', ml[0]); print(' impl :', il[0]); print(err[-1500:])
     return 0 if ml[0] == il[0] else 1
